@@ -16,7 +16,7 @@ LEVEL_TEXT = ('Bounded symbolic verification: (1) construct -> parse round trip 
               'codes is decoded by the real Open.parse and must yield exactly the encoded values; the encoder output is also read '
               'back by an independent OPEN reader.')
 LEVEL_NOTE = 'Capability values of the variable-length kinds are short (<= 2 entries). Identifier text via the netaddr model (replayed with the real one).'
-LEVEL_ADDED = 'Also: several ADD-PATH capabilities in one OPEN and several tuples in one capability (independent encoder).'
+LEVEL_ADDED = 'Also: several ADD-PATH capabilities in one OPEN and several tuples in one capability (independent encoder). Capability dictionaries as the configuration builds them (every key present, False where off); a repeated ADD-PATH tuple.'
 TECHNIQUE = 'symbolic execution of the OPEN/NOTIFICATION/KEEPALIVE/ROUTE-REFRESH codecs (CrossHair+z3): round trip + differential against an independent RFC encoder/reader'
 EXPLANATION = 'C14: codec round trips and independent-encoder differential for the four non-UPDATE messages.'
 BOUNDS = 'AS 1..2^32-1, hold 0..65535, id 0..2^32-1 symbolic; 24 capability subsets; <= 4 capabilities per OPEN in the independent half, all orders of <= 3; NOTIFICATION data <= 4 octets'
